@@ -212,3 +212,46 @@ pub(crate) fn slot_val_is(st: &Store, i: usize, expect: &[u8]) -> bool {
     }
     r
 }
+
+/// Like `sym_store` but every entry has an empty value (only the *keys* are arbitrary): used by
+/// harnesses whose code under test decodes one record with concrete bytes (metadata) and only
+/// looks at the keys of everything else.
+pub(crate) fn sym_store_keys_only(s: &mut Store, n: usize) {
+    let mut i = 0;
+    while i < n {
+        if kani::any() {
+            let k: [u8; 8] = kani::any();
+            kani::assume(k[2] <= 3 && k[7] == 0);
+            let kk = u64::from_be_bytes(k);
+            let mut j = 0;
+            while j < i {
+                kani::assume(!(s.used[j] && s.keys[j] == kk));
+                j += 1;
+            }
+            s.set_slot(i, k, &[]);
+        }
+        i += 1;
+    }
+}
+
+/// Stub for `CStr::from_bytes_until_nul`: a plain byte loop instead of core's word-at-a-time
+/// memchr (which is intractable on symbolic bytes).  A buffer without any NUL is outside the
+/// harnesses' state space (arroy always writes the terminator): assumed away.
+pub(crate) fn stub_from_bytes_until_nul(
+    bytes: &[u8],
+) -> Result<&core::ffi::CStr, core::ffi::FromBytesUntilNulError> {
+    let mut i = 0;
+    while i < bytes.len() {
+        if bytes[i] == 0 {
+            return Ok(unsafe { core::ffi::CStr::from_bytes_with_nul_unchecked(&bytes[..=i]) });
+        }
+        i += 1;
+    }
+    kani::assume(false);
+    loop {}
+}
+
+/// Stub for `CStr::to_str`: metric names are ASCII in every harness; UTF-8 validation skipped.
+pub(crate) fn stub_cstr_to_str(c: &core::ffi::CStr) -> Result<&str, core::str::Utf8Error> {
+    Ok(unsafe { core::str::from_utf8_unchecked(c.to_bytes()) })
+}
